@@ -168,8 +168,9 @@ def gen_net(rng: random.Random, hosts: list[str]) -> dict:
         if k in ("local", "fqdn"):
             r = pick(rng, ["list", "list", "empty", "error", "hang"], [5, 5, 2, 2, 1])
             if r == "list":
-                res: Any = [[pick(rng, [4, 6, 4]), None] for _ in range(rng.randint(1, 3))]
-                res = [[f, pick(rng, V4) if f == 4 else pick(rng, V6)] for f, _ in res]
+                # family 99: an address family the OS may return that is neither IPv4 nor IPv6 (skipped by the decision tree)
+                res: Any = [[pick(rng, [4, 6, 4, 4, 6, 4, 99]), None] for _ in range(rng.randint(1, 3))]
+                res = [[f, pick(rng, V6) if f == 6 else pick(rng, V4)] for f, _ in res]
             else:
                 res = r
             net["resolver"][h] = {"result": res, "latency": pick(rng, [0.0, 0.01, 1.0, 10.0])}
